@@ -33,7 +33,7 @@ impl G {
                 (0..n).map(|_| *self.rng.pick(&PIECES[..])).collect::<Vec<_>>().join("")
             }
         };
-        if self.ws && self.rng.chance(1, 3) {
+        if self.ws && self.rng.chance(1, 12) {
             let w = *self.rng.pick(&["\t", "\n", "\r", "\r\n"]);
             let at = self.rng.below(s.chars().count() as u64 + 1) as usize;
             let idx = s.char_indices().nth(at).map(|(i, _)| i).unwrap_or(s.len());
@@ -134,6 +134,15 @@ pub struct Case<'a> {
 impl<'a> Case<'a> {
     pub fn op(&mut self, line: &str) -> String {
         self.ctx.step(self.e, line)
+    }
+
+    /// explicit publish; the op line carries `X` when `FileDesc::new` refuses the FDT object (library-determined length)
+    pub fn publish(&mut self) -> String {
+        let fits = self.e.admits_now(self.now);
+        let line = if fits { format!("fdtabs pub {}", self.now) } else { format!("fdtabs pub {} X", self.now) };
+        let r = self.op(&line);
+        self.ctx.count(if r == "ok" { "publish-ok" } else { "publish-refused" });
+        r
     }
 
     /// one `read`; the op line is written after the call because it carries the scheduler's decisions as hints
@@ -248,7 +257,35 @@ fn random_add(g: &mut G, long_ok: bool, default: &OtiSpec) -> String {
 }
 
 fn cfg_line(full: bool, sid: u32, dur: u64, oti: &OtiSpec, groups: &Option<Vec<String>>, fc: u8) -> String {
-    format!("fdtabs cfg {} {} {} {} {} {}", if full { "f" } else { "o" }, sid, dur, oti.show(), groups_tok(groups), fc)
+    cfg_line_toi(full, sid, dur, oti, groups, fc, 112, 1)
+}
+
+fn cfg_line_toi(full: bool, sid: u32, dur: u64, oti: &OtiSpec, groups: &Option<Vec<String>>, fc: u8, tw: u32, ti: u128) -> String {
+    format!("fdtabs cfg {} {} {} {} {} {} {} {}", if full { "f" } else { "o" }, sid, dur, oti.show(), groups_tok(groups), fc, tw, ti)
+}
+
+/// TOI width class and first TOI: every `toi_max_length`, values at and just around each width boundary
+/// (incl. above 2^64), just below the wrap of the chosen width, above the width (masked by the allocator), 0
+fn pick_toi(rng: &mut Rng) -> (u32, u128) {
+    let widths = [16u32, 32, 48, 64, 80, 112];
+    let w = *rng.pick(&widths);
+    let top: u128 = 1u128 << w;
+    let init = match rng.below(8) {
+        0 => 1,
+        1 => 0,
+        2 => top - 1 - rng.below(4) as u128,                       // wraps to 1 within a few adds
+        3 => {
+            // a boundary of a narrower (or the same) width class: 2^b - 1, 2^b, 2^b + 1
+            let b = *rng.pick(&[8u32, 16, 32, 48, 63, 64, 80, 111]);
+            let v = (1u128 << b.min(w - 1)) + rng.below(3) as u128 - 1;
+            v
+        }
+        4 => rng.bits(w) ,
+        5 => top + rng.bits(12),                                   // wider than the field: masked
+        6 => (1u128 << 64.min(w - 1)) + rng.below(1000) as u128,
+        _ => rng.bits(w) | (1u128 << (w - 1)),                     // top bit of the width set
+    };
+    (w, init)
 }
 
 fn random_case(ctx: &mut Ctx, e: &mut FdtEngine, g: &mut G, idx: u64) {
@@ -281,7 +318,12 @@ fn random_case(ctx: &mut Ctx, e: &mut FdtEngine, g: &mut G, idx: u64) {
         ctx.count("start-id-near-wrap");
     }
     let mut c = Case { ctx, e, now: pick_time(&mut g.rng), tois: Vec::new(), reads: 0 };
-    c.op(&cfg_line(full, sid, dur, &oti, &groups, fc));
+    let (tw, ti) = if g.rng.chance(1, 3) { (112, 1) } else { pick_toi(&mut g.rng) };
+    c.ctx.count(&format!("toi-width={}", tw));
+    if ti >= (1u128 << 64) && tw > 64 {
+        c.ctx.count("toi-above-2^64");
+    }
+    c.op(&cfg_line_toi(full, sid, dur, &oti, &groups, fc, tw, ti));
     let steps = g.rng.range(10, 45);
     let mut key = format!("{} {} {}", full, dur, oti.show());
     for _ in 0..steps {
@@ -306,7 +348,7 @@ fn random_case(ctx: &mut Ctx, e: &mut FdtEngine, g: &mut G, idx: u64) {
                 key.push_str("|r");
             }
             6..=8 => {
-                c.op(&format!("fdtabs pub {}", c.now));
+                c.publish();
                 key.push_str("|p");
             }
             9 => {
@@ -377,7 +419,7 @@ fn supersede_case(ctx: &mut Ctx, e: &mut FdtEngine, g: &mut G, dur: u64, stepus:
     c.op(&cfg_line(true, g.rng.below(1 << 20) as u32, dur, &oti, &None, 0));
     let line = add_line("file:///a", "text/plain", 10, 1, 0, None, &None, &None, "~", &None, 1, "d1000000", 0);
     c.op(&line);
-    c.op(&format!("fdtabs pub {}", c.now));
+    c.publish();
     let horizon = dur.min(70_000_000) * 2 + 3_000_000;
     let end = c.now + horizon;
     while c.now < end && !c.e.dead {
@@ -385,6 +427,43 @@ fn supersede_case(ctx: &mut Ctx, e: &mut FdtEngine, g: &mut G, dur: u64, stepus:
         c.now += stepus;
     }
     c.ctx.nontrivial(&format!("sup {} {} {}", dur, stepus, frac));
+    c.finish();
+}
+
+/// the FDT object does not fit the session default OTI: never (tiny B*E), or only once objects have been added
+fn admission_case(ctx: &mut Ctx, e: &mut FdtEngine, g: &mut G, full: bool, grow: bool, idx: u64) {
+    e.reset();
+    ctx.case(&format!("admission-{}-{}-{}", if full { "full" } else { "obt" }, if grow { "grow" } else { "never" }, idx));
+    ctx.count("fdt-admission-cases");
+    let oti = if grow {
+        OtiSpec { enc: 5, inst: 0, b: 2, e: 64, p: 1, scheme: None } // 64 * 2 * 255 = 32640 bytes
+    } else {
+        OtiSpec { enc: 5, inst: 0, b: 1, e: *g.rng.pick(&[1u16, 2, 4]), p: 1, scheme: None } // <= 1020 bytes
+    };
+    let mut c = Case { ctx, e, now: pick_time(&mut g.rng), tois: Vec::new(), reads: 0 };
+    c.op(&cfg_line(full, g.rng.below(1 << 20) as u32, 31_000_000, &oti, &None, 0));
+    let small = OtiSpec { enc: 0, inst: 0, b: 8, e: 64, p: 0, scheme: None };
+    let n = if grow { 14 } else { 3 };
+    for i in 0..n {
+        let etag = if grow { Some("e".repeat(4000)) } else { None };
+        let line = add_line(&format!("file:///adm{}", i), "a/b", 3, i as u8, 0, None, &etag, &None, "~", &Some(small.clone()), 1, "d1000000", 0);
+        c.op(&line);
+        if i % 3 == 0 {
+            c.publish();
+            c.drain(1500);
+        }
+    }
+    c.publish();
+    // poll steadily across the expiry of whatever was published last
+    for _ in 0..36 {
+        c.now += 1_000_000;
+        if !c.drain(1500) {
+            break;
+        }
+    }
+    c.op(&format!("fdtabs cur {}", c.now));
+    c.op("fdtabs fl");
+    c.ctx.nontrivial(&format!("adm {} {} {}", full, grow, idx));
     c.finish();
 }
 
@@ -403,7 +482,7 @@ fn wrap_case(ctx: &mut Ctx, e: &mut FdtEngine, g: &mut G, n: u64) {
         }
         let k = g.rng.range(1, 3);
         for _ in 0..k {
-            c.op(&format!("fdtabs pub {}", c.now));
+            c.publish();
             c.now += 1000;
         }
         c.drain(200);
@@ -492,7 +571,7 @@ fn witness_cases(ctx: &mut Ctx, e: &mut FdtEngine) {
         let mut c = Case { ctx, e, now: 1_700_000_000_000_000, tois: vec![], reads: 0 };
         c.op(&cfg_line(true, 1, 3_600_000_000, &oti, &Some(vec!["G".into()]), 0));
         c.op(&add_line("file:///object1", "plain/txt", 0, 0, 0, None, &None, &Some(vec!["Test1".into(), "a&b".into()]), "~", &None, 2, "~", 0));
-        c.op(&format!("fdtabs pub {}", c.now));
+        c.publish();
         c.drain(50);
         c.op(&format!("fdtabs cur {}", c.now));
     }
@@ -504,7 +583,7 @@ fn witness_cases(ctx: &mut Ctx, e: &mut FdtEngine) {
         let mut c = Case { ctx, e, now: 1_700_000_000_900_000, tois: vec![], reads: 0 };
         c.op(&cfg_line(true, 5, 1_000_000, &oti, &None, 0));
         c.op(&add_line("file:///a", "t", 1, 0, 0, None, &None, &None, "~", &None, 1, "d1000000", 0));
-        c.op(&format!("fdtabs pub {}", c.now));
+        c.publish();
         for _ in 0..14 {
             c.drain(20);
             c.now += 100_000;
@@ -524,7 +603,7 @@ pub fn run(ctx: &mut Ctx, e: &mut FdtEngine) {
                 per-object OTI overrides of all schemes, cache-control variants, groups, start ids incl. the 2^20 wrap, durations 1 s .. 7 d, FDT cenc) \
                 on a real Sender; every emitted instance read by expat and by flute's Receiver and compared with the Lean model; \
                 non-trivial = history with >= 1 object and >= 1 fully emitted instance, distinct by configuration + op shape".to_string();
-    let mut g = G { rng: Rng::new(ctx.seed), ws: false };
+    let mut g = G { rng: Rng::new(ctx.seed), ws: true };
     witness_cases(ctx, e);
     let thorough = ctx.tier_thorough;
     let n_hist = if thorough { 1500 } else { 160 };
@@ -547,6 +626,9 @@ pub fn run(ctx: &mut Ctx, e: &mut FdtEngine) {
                 k += 1;
             }
         }
+    }
+    for (i, (full, grow)) in [(true, false), (false, false), (true, true), (false, true)].iter().enumerate() {
+        admission_case(ctx, e, &mut g, *full, *grow, i as u64);
     }
     wrap_case(ctx, e, &mut g, if thorough { 120 } else { 30 });
     wrap_case(ctx, e, &mut g, 8);
